@@ -32,7 +32,8 @@ def find_codec(an: Analysis):
             expand = f
         elif len(f.params) == 1 and any(isinstance(n, ast.Attribute) and n.attr == "from_bytes" for n in ast.walk(f.node)):
             b2i = f
-        elif len(f.params) == 1 and any(isinstance(n, ast.BinOp) and isinstance(n.op, ast.BitAnd) for n in ast.walk(f.node)) and "bytes" in src_names:
+        elif len(f.params) == 1 and "bytes" in src_names and any(isinstance(n, ast.List) and len(n.elts) == 2 for n in ast.walk(f.node)) \
+                and not any(isinstance(n, ast.Attribute) and n.attr.startswith("co_") for n in ast.walk(f.node)):
             i2b = f
     if not (collapse and expand and b2i and i2b):
         raise AnalysisError(f"line-table codec stage functions not all recognised (collapse={collapse}, expand={expand}, bytes_to_items={b2i}, items_to_bytes={i2b})")
